@@ -14,13 +14,13 @@ TEXT_POOLS = [
 
 ALL_KINDS = ['new', 'conv', 'apply', 'remove', 'clear', 'slice', 'index', 'clip', 'iter', 'add', 'iadd', 'join', 'pad',
              'fmt', 'render', 'case', 'assign', 'strip', 'rmfix', 'split', 'splitlines', 'partition', 'replace',
-             'expandtabs', 'fmatch', 'find', 'query', 'simplify', 'roundtrip', 'setansi']
+             'expandtabs', 'fmatch', 'applymatch', 'find', 'query', 'simplify', 'roundtrip', 'setansi']
 
 BASE_WEIGHT = {
     'new': 6, 'conv': 4, 'apply': 10, 'remove': 6, 'clear': 1, 'slice': 7, 'index': 2, 'clip': 3, 'iter': 1, 'add': 6,
     'iadd': 5, 'join': 3, 'pad': 5, 'fmt': 3, 'render': 1, 'case': 2, 'assign': 2, 'strip': 3, 'rmfix': 2, 'split': 3,
     'splitlines': 1, 'partition': 2, 'replace': 4, 'expandtabs': 1, 'fmatch': 3, 'find': 2, 'query': 2, 'simplify': 2,
-    'roundtrip': 1, 'setansi': 1,
+    'roundtrip': 1, 'setansi': 1, 'applymatch': 1,
 }
 
 GROUP_SHARING_SETS = [
@@ -538,6 +538,16 @@ class Gen:
                 op['st'] = self.selection(o)
                 op['star'] = r.random() < 0.5
         return op
+
+    def g_applymatch(self, world):
+        r = self.rng
+        s = self.recv_slot(world)
+        o = world.obs[s]
+        ch = r.choice(o.text) if o.text else 'a'
+        ch = ch if ch.isalnum() else 'a'
+        pat, groups = r.choice([('(%s)(.?)' % ch, 2), ('.(.)', 1), ('(%s+)' % ch, 1), ('(.)(.)(.)?', 3), ('%s' % ch, 0), ('()(.)', 2)])
+        return {'op': 'applymatch', 'r': s, 'd': self.slot(), 'ip': self.ip(), 'pat': pat, 'nth': r.choice([0, 0, 1, 2]),
+                'group': r.randint(0, groups), 'st': self.settings()}
 
     def g_find(self, world):
         r = self.rng
